@@ -23,10 +23,10 @@ def check(prog, rep):
     s = src(ch.node)
     a = "grad = [gradient(expr, var) for var in variables]" in s
     b = "row.append(gradient(grad[i], variables[j]))" in s and "for i in range(n):" in s and "for j in range(n):" in s and "hessian.append(row)" in s
-    rep.ob("R17.1", "compute_hessian", a, "first pass: grad[i] = d expr / d variables[i]" if a else "the first pass is not [gradient(expr, var) for var in variables]", loc=ch.loc, detail="first-pass")
-    rep.ob("R17.1", "compute_hessian", b, "H[i][j] = d grad[i] / d variables[j], both indices over the same list" if b else "H[i][j] is not gradient(grad[i], variables[j]) with i, j over range(n)", loc=ch.loc, detail="second-pass")
+    rep.pin('hessian shape rules', "R17.1", "compute_hessian", a, "first pass: grad[i] = d expr / d variables[i]" if a else "the first pass is not [gradient(expr, var) for var in variables]", loc=ch.loc, detail="first-pass")
+    rep.pin('hessian shape rules', "R17.1", "compute_hessian", b, "H[i][j] = d grad[i] / d variables[j], both indices over the same list" if b else "H[i][j] is not gradient(grad[i], variables[j]) with i, j over range(n)", loc=ch.loc, detail="second-pass")
     n_ok = "n = len(variables)" in s
-    rep.ob("R17.1", "compute_hessian", n_ok, "n is the length of the caller's variable list" if n_ok else "the Hessian dimension is not len(variables)", loc=ch.loc, detail="dimension")
+    rep.pin('hessian shape rules', "R17.1", "compute_hessian", n_ok, "n is the length of the caller's variable list" if n_ok else "the Hessian dimension is not len(variables)", loc=ch.loc, detail="dimension")
     # closure of the rule set (shared with C02)
     from .c02 import _registered_rules
     from .c15 import registered_gradient_kinds
@@ -35,20 +35,20 @@ def check(prog, rep):
     _registered_rules(prog, sub, registered_gradient_kinds(prog))
     for o in sub.obs:
         if o.rule == "R02.6":
-            rep.ob("R17.1", f"closure:{o.construct}", o.ok, o.msg, loc=o.loc, detail="emitted-kind-has-rule")
+            rep.pin('hessian shape rules', "R17.1", f"closure:{o.construct}", o.ok, o.msg, loc=o.loc, detail="emitted-kind-has-rule")
 
     cf = prog.func("optyx.core.autodiff:compile_hessian")
     t = src(cf.node)
     up = "for i in range(n):\n        for j in range(i, n):\n            compiled_elements[i, j] = compile_expression(hessian_exprs[i][j], variables)" in t
-    rep.ob("R17.2", "compile_hessian", up, "upper triangle (j >= i) compiled from entry (i, j) against the caller's variables" if up else "the compiled elements are not hessian_exprs[i][j] for j >= i", loc=cf.loc, detail="upper-triangle")
+    rep.pin('hessian shape rules', "R17.2", "compile_hessian", up, "upper triangle (j >= i) compiled from entry (i, j) against the caller's variables" if up else "the compiled elements are not hessian_exprs[i][j] for j >= i", loc=cf.loc, detail="upper-triangle")
     fn = [f for f in prog.nested_functions(cf) if f.name == "hessian_fn"]
     if not fn:
         raise AnalysisError("compile_hessian.hessian_fn not found")
     u = src(fn[0].node)
     mir = "val = compiled_elements[i, j](x)" in u and "result[i, j] = val" in u and "if i != j:\n                result[j, i] = val" in u and "for j in range(i, n)" in u and "result = np.zeros((n, n))" in u
-    rep.ob("R17.2", "compile_hessian.hessian_fn", mir, "result[i, j] = result[j, i] = element (i, j) for all j >= i" if mir else "the general Hessian closure does not write element (i, j) to [i, j] and mirror the same value to [j, i]", loc=fn[0].loc, detail="mirroring")
+    rep.pin('hessian shape rules', "R17.2", "compile_hessian.hessian_fn", mir, "result[i, j] = result[j, i] = element (i, j) for all j >= i" if mir else "the general Hessian closure does not write element (i, j) to [i, j] and mirror the same value to [j, i]", loc=fn[0].loc, detail="mirroring")
     gen = "hessian_exprs = compute_hessian(expr, variables)" in t
-    rep.ob("R17.2", "compile_hessian", gen, "general path differentiates the same expression against the same variables" if gen else "the general path does not use compute_hessian(expr, variables)", loc=cf.loc, detail="general-path")
+    rep.pin('hessian shape rules', "R17.2", "compile_hessian", gen, "general path differentiates the same expression against the same variables" if gen else "the general path does not use compute_hessian(expr, variables)", loc=cf.loc, detail="general-path")
 
     factories = discover_factories(prog)
     _closures(prog, rep, {q: f for q, f in factories.items() if f.name == "compile_hessian"}, mode="hess", r_guard="R17.3", r_term="R17.3")
@@ -61,9 +61,9 @@ def check(prog, rep):
             p = op_test(n.test)
             if p and p[0] == "op" and not p[2]:
                 ops_short |= set(p[1])
-    rep.ob("R17.3", "compile_hessian", ops_short <= {"sin", "cos", "exp", "log", "sqrt", "sinh", "cosh", "tanh", "tan"}, f"diagonal shortcuts exist for {sorted(ops_short)}; other operators fall through to the general path", loc=cf.loc, detail="shortcut-ops")
+    rep.pin('hessian shape rules', "R17.3", "compile_hessian", ops_short <= {"sin", "cos", "exp", "log", "sqrt", "sinh", "cosh", "tanh", "tan"}, f"diagonal shortcuts exist for {sorted(ops_short)}; other operators fall through to the general path", loc=cf.loc, detail="shortcut-ops")
     idx_ok = t.count("indices = np.array([var_name_to_idx[v.name] for v in vector_vars], dtype=np.intp)") == 2 and t.count("var_name_to_idx = {v.name: i for i, v in enumerate(variables)}") == 2
-    rep.ob("R17.3", "compile_hessian", idx_ok, "diagonal positions are the columns of the vector's variables in the caller's order" if idx_ok else "diagonal positions are not looked up in the caller's variable order", loc=cf.loc, detail="positions")
+    rep.pin('hessian shape rules', "R17.3", "compile_hessian", idx_ok, "diagonal positions are the columns of the vector's variables in the caller's order" if idx_ok else "diagonal positions are not looked up in the caller's variable order", loc=cf.loc, detail="positions")
 
     # R17.4
     sc = [f for f in prog.functions.values() if f.module.name == "optyx.solvers.scipy_solver" and any(dotted(c.func) == "compile_hessian" for c in calls(f.node))]
@@ -72,9 +72,9 @@ def check(prog, rep):
     for f in sc:
         w = src(f.node)
         ok = "if problem.sense == 'maximize':\n                obj_expr = -obj_expr" in w and "compiled_hess = compile_hessian(obj_expr, variables)" in w and "obj_expr = problem.objective" in w
-        rep.ob("R17.4", f.name, ok, "the Hessian is compiled from the objective, negated iff the problem is a maximisation (same guard as objective and gradient, see C09 R09.2)" if ok else "the Hessian for SciPy is not compiled from the objective negated under `problem.sense == 'maximize'`", loc=f.loc, detail="negated-iff-maximise")
+        rep.pin('hessian shape rules', "R17.4", f.name, ok, "the Hessian is compiled from the objective, negated iff the problem is a maximisation (same guard as objective and gradient, see C09 R09.2)" if ok else "the Hessian for SciPy is not compiled from the objective negated under `problem.sense == 'maximize'`", loc=f.loc, detail="negated-iff-maximise")
         ok2 = "cache['hess_fn'] = compiled_hess" in w and "if 'hess_fn' not in cache" in w
-        rep.ob("R17.4", f.name, ok2, "compiled once per cache generation" if ok2 else "the compiled Hessian is not stored in the current solver cache", loc=f.loc, detail="cached")
+        rep.pin('hessian shape rules', "R17.4", f.name, ok2, "compiled once per cache generation" if ok2 else "the compiled Hessian is not stored in the current solver cache", loc=f.loc, detail="cached")
     rep.expect_min("R17.1", 5)
     rep.expect_min("R17.2", 3)
     rep.expect_min("R17.3", 20)
